@@ -1,6 +1,788 @@
-/- Helper lemmas for C09/C10 (element normalisation, paths, queries). -/
 import SigV4.Spec.UriSpec
-
 namespace SigV4
+
+theorem u8_forall {P : UInt8 → Prop} (h : ∀ n : Fin 256, P (UInt8.ofNat n.val)) : ∀ c, P c := by
+  intro c; have := h ⟨c.toNat, c.toNat_lt⟩; simpa using this
+
+theorem unreserved_facts : ∀ c : UInt8, isUnreserved c = true →
+    (c ≠ 0x25 ∧ c ≠ 0x2B ∧ c ≠ 0x2F ∧ c < 0x80) := by
+  apply u8_forall; decide +kernel
+
+theorem pctEncode_facts : ∀ c : UInt8,
+    hexVal (hexDigitUpper (c >>> (4 : UInt8))) = some (c >>> (4 : UInt8)) ∧
+    hexVal (hexDigitUpper (c &&& (0xF : UInt8))) = some (c &&& (0xF : UInt8)) ∧
+    (c >>> (4 : UInt8)) * 16 + (c &&& (0xF : UInt8)) = c ∧
+    isUnreserved (hexDigitUpper (c >>> (4 : UInt8))) = true ∧
+    isUnreserved (hexDigitUpper (c &&& (0xF : UInt8))) = true ∧
+    isUpperHexDigit (hexDigitUpper (c >>> (4 : UInt8))) = true ∧
+    isUpperHexDigit (hexDigitUpper (c &&& (0xF : UInt8))) = true := by
+  apply u8_forall; decide +kernel
+
+@[simp] theorem optToOutcome_some {α} (k : ErrKind) (a : α) : optToOutcome k (some a) = .ok a := rfl
+@[simp] theorem optToOutcome_none {α} (k : ErrKind) : optToOutcome k (none : Option α) = .err k := rfl
+
+theorem optToOutcome_map {α β} (k : ErrKind) (f : α → β) (o : Option α) :
+    (optToOutcome k o).map f = optToOutcome k (o.map f) := by
+  cases o <;> rfl
+
+theorem pctEncodeAll_nil : pctEncodeAll [] = [] := rfl
+theorem pctEncodeAll_cons (c : UInt8) (d : Bytes) :
+    pctEncodeAll (c :: d) = (if isUnreserved c then [c] else pctEncode c) ++ pctEncodeAll d := by
+  simp [pctEncodeAll]
+
+theorem pctDecode_nil (p : Bool) : pctDecode p [] = some [] := by simp [pctDecode]
+theorem pctDecode_pct_some (p : Bool) (h1 h2 a b : UInt8) (rest : Bytes)
+    (ha : hexVal h1 = some a) (hb : hexVal h2 = some b) :
+    pctDecode p (0x25 :: h1 :: h2 :: rest) = (pctDecode p rest).map ((a * 16 + b) :: ·) := by
+  rw [pctDecode.eq_2]; simp [ha, hb]
+theorem pctDecode_pct_none (p : Bool) (h1 h2 : UInt8) (rest : Bytes)
+    (h : ∀ a b, hexVal h1 = some a → hexVal h2 = some b → False) :
+    pctDecode p (0x25 :: h1 :: h2 :: rest) = none := by
+  rw [pctDecode.eq_2]; simp only [if_true]
+theorem pctDecode_pct_short (p : Bool) (rest : Bytes)
+    (h : ∀ h1 h2 rest', rest = h1 :: h2 :: rest' → False) :
+    pctDecode p (0x25 :: rest) = none := by
+  rw [pctDecode.eq_3 _ _ _ h]; simp
+theorem pctDecode_plus (rest : Bytes) :
+    pctDecode true (0x2B :: rest) = (pctDecode true rest).map (0x20 :: ·) := by
+  rw [pctDecode.eq_def]; simp
+theorem pctDecode_other (p : Bool) (c : UInt8) (rest : Bytes) (h1 : c ≠ 0x25)
+    (h2 : c ≠ 0x2B ∨ p = false) :
+    pctDecode p (c :: rest) = (pctDecode p rest).map (c :: ·) := by
+  rw [pctDecode.eq_def]
+  rcases h2 with h2 | h2 <;> simp [h1, h2]
+
+
+theorem normElemRaw_eq_spec (isPath : Bool) (s : Bytes) :
+    normElemRaw isPath s = optToOutcome (elemErr isPath) ((pctDecode true s).map pctEncodeAll) := by
+  fun_induction normElemRaw isPath s with
+  | case1 => simp [pctDecode_nil, pctEncodeAll_nil]
+  | case2 c rest hc ih =>
+    obtain ⟨h1, h2, -, -⟩ := unreserved_facts c hc
+    rw [ih, optToOutcome_map, pctDecode_other _ _ _ h1 (.inl h2)]
+    simp [Option.map_map, Function.comp_def, pctEncodeAll_cons, hc]
+  | case3 h1 h2 rest a b hb ha v hv _ ih => 
+    rw [ih, optToOutcome_map, pctDecode_pct_some _ _ _ _ _ _ ha hb]
+    simp [Option.map_map, Function.comp_def, pctEncodeAll_cons, v, hv]
+  | case4 h1 h2 rest a b hb ha v hv _ ih =>
+    rw [ih, optToOutcome_map, pctDecode_pct_some _ _ _ _ _ _ ha hb]
+    simp [Option.map_map, Function.comp_def, pctEncodeAll_cons, v, hv]
+  | case5 h1 h2 rest h _ => rw [pctDecode_pct_none _ _ _ _ h]; rfl
+  | case6 rest h _ => rw [pctDecode_pct_short _ _ h]; rfl
+  | case7 rest _ _ ih => 
+    rw [ih, optToOutcome_map, pctDecode_plus]
+    have e : (if isUnreserved 32 = true then [32] else pctEncode 32) = b!"%20" := by decide
+    simp [Option.map_map, Function.comp_def, pctEncodeAll_cons, e]
+  | case8 c rest hc h1 h2 ih =>
+    rw [ih, optToOutcome_map, pctDecode_other _ _ _ h1 (.inl h2)]
+    simp [Option.map_map, Function.comp_def, pctEncodeAll_cons, hc]
+
+/-! ### Output alphabet, ASCII-ness and the dead panic branch -/
+
+theorem pctEncodeAll_alphabet (d : Bytes) :
+    ∀ c ∈ pctEncodeAll d, isUnreserved c = true ∨ c = 0x25 := by
+  induction d with
+  | nil => simp [pctEncodeAll_nil]
+  | cons x d ih =>
+    intro c hc
+    rw [pctEncodeAll_cons, List.mem_append] at hc
+    rcases hc with hc | hc
+    · by_cases hx : isUnreserved x = true
+      · simp [hx] at hc; subst hc; exact .inl hx
+      · obtain ⟨-, -, -, f1, f2, -, -⟩ := pctEncode_facts x
+        simp [hx, pctEncode] at hc
+        rcases hc with rfl | rfl | rfl
+        · exact .inr rfl
+        · exact .inl f1
+        · exact .inl f2
+    · exact ih c hc
+
+theorem pctEncodeAll_allAscii (d : Bytes) : allAscii (pctEncodeAll d) = true := by
+  simp only [allAscii, List.all_eq_true, decide_eq_true_eq]
+  intro c hc
+  rcases pctEncodeAll_alphabet d c hc with h | rfl
+  · exact (unreserved_facts c h).2.2.2
+  · decide
+
+theorem pctEncodeAll_no_slash (d : Bytes) : (0x2F : UInt8) ∉ pctEncodeAll d := by
+  intro hc
+  rcases pctEncodeAll_alphabet d _ hc with h | h
+  · exact absurd h (by decide)
+  · exact absurd h (by decide)
+
+theorem normElem_eq_spec (isPath : Bool) (s : Bytes) :
+    normElem isPath s = optToOutcome (elemErr isPath) ((pctDecode true s).map pctEncodeAll) := by
+  unfold normElem
+  rw [normElemRaw_eq_spec]
+  cases pctDecode true s with
+  | none => rfl
+  | some d => simp [pctEncodeAll_allAscii]
+
+/-! ### decode ∘ encode -/
+
+theorem pctDecode_pctEncodeAll (plus : Bool) (d : Bytes) :
+    pctDecode plus (pctEncodeAll d) = some d := by
+  induction d with
+  | nil => simp [pctEncodeAll_nil, pctDecode_nil]
+  | cons x d ih =>
+    rw [pctEncodeAll_cons]
+    by_cases hx : isUnreserved x = true
+    · obtain ⟨h1, h2, -, -⟩ := unreserved_facts x hx
+      simp only [hx, if_true, List.singleton_append]
+      rw [pctDecode_other _ _ _ h1 (.inl h2), ih]; rfl
+    · obtain ⟨f1, f2, f3, -⟩ := pctEncode_facts x
+      simp only [hx, pctEncode]
+      show pctDecode plus (37 :: _ :: _ :: pctEncodeAll d) = _
+      rw [pctDecode_pct_some _ _ _ _ _ _ f1 f2, ih, f3]; rfl
+
+theorem pctEncodeAll_inj {d d' : Bytes} (h : pctEncodeAll d = pctEncodeAll d') : d = d' := by
+  have := pctDecode_pctEncodeAll true d
+  rw [h, pctDecode_pctEncodeAll] at this
+  exact (Option.some.inj this).symm
+
+theorem pctDecode_eq_of_no_plus (s : Bytes) (h : (0x2B : UInt8) ∉ s) :
+    pctDecode false s = pctDecode true s := by
+  fun_induction pctDecode false s with
+  | case1 => simp [pctDecode_nil]
+  | case2 h1 h2 rest a b hb ha ih =>
+    simp only [List.mem_cons, not_or] at h
+    rw [pctDecode_pct_some _ _ _ _ _ _ ha hb, ih h.2.2.2]
+  | case3 h1 h2 rest hh => rw [pctDecode_pct_none _ _ _ _ hh]
+  | case4 rest hh => rw [pctDecode_pct_short _ _ hh]
+  | case5 c rest hc hp => simp at hp
+  | case6 c rest hc hp ih =>
+    simp only [List.mem_cons, not_or] at h
+    rw [pctDecode_other true c rest hc (.inl (Ne.symm h.1)), ih h.2]
+
+
+/-! ### splitOn / joinWith / collapseSlashes / dropMiddleEmpties -/
+
+theorem splitOn_ne_nil (sep : UInt8) (s : Bytes) : splitOn sep s ≠ [] := by
+  fun_induction splitOn sep s <;> simp_all
+
+theorem splitOn_nil (sep : UInt8) : splitOn sep [] = [[]] := by simp [splitOn]
+
+theorem splitOn_cons_sep (sep : UInt8) (cs : Bytes) : splitOn sep (sep :: cs) = [] :: splitOn sep cs := by
+  simp [splitOn]
+
+theorem splitOn_cons_ne (sep c : UInt8) (cs : Bytes) (h : c ≠ sep) :
+    ∃ hd tl, splitOn sep cs = hd :: tl ∧ splitOn sep (c :: cs) = (c :: hd) :: tl := by
+  cases hs : splitOn sep cs with
+  | nil => exact absurd hs (splitOn_ne_nil _ _)
+  | cons hd tl => exact ⟨hd, tl, rfl, by simp [splitOn, h, hs]⟩
+
+theorem splitOn_mem (sep : UInt8) (s : Bytes) :
+    ∀ seg ∈ splitOn sep s, ∀ c ∈ seg, c ∈ s := by
+  induction s with
+  | nil => simp [splitOn_nil]
+  | cons x s ih =>
+    by_cases hx : x = sep
+    · subst hx
+      rw [splitOn_cons_sep]
+      intro seg hseg c hc
+      rcases List.mem_cons.1 hseg with rfl | hseg
+      · simp at hc
+      · exact List.mem_cons_of_mem _ (ih seg hseg c hc)
+    · obtain ⟨hd, tl, e1, e2⟩ := splitOn_cons_ne sep x s hx
+      rw [e2]
+      rw [e1] at ih
+      intro seg hseg c hc
+      rcases List.mem_cons.1 hseg with rfl | hseg
+      · rcases List.mem_cons.1 hc with rfl | hc
+        · exact List.mem_cons_self
+        · exact List.mem_cons_of_mem _ (ih hd List.mem_cons_self c hc)
+      · exact List.mem_cons_of_mem _ (ih seg (List.mem_cons_of_mem _ hseg) c hc)
+
+theorem splitOn_no_sep (sep : UInt8) (x : Bytes) (h : sep ∉ x) : splitOn sep x = [x] := by
+  induction x with
+  | nil => exact splitOn_nil _
+  | cons c x ih =>
+    simp only [List.mem_cons, not_or] at h
+    obtain ⟨hd, tl, e1, e2⟩ := splitOn_cons_ne sep c x (Ne.symm h.1)
+    rw [ih h.2] at e1
+    rw [e2]; simp_all
+
+theorem splitOn_append_sep (sep : UInt8) (x r : Bytes) (h : sep ∉ x) :
+    splitOn sep (x ++ sep :: r) = x :: splitOn sep r := by
+  induction x with
+  | nil => exact splitOn_cons_sep _ _
+  | cons c x ih =>
+    simp only [List.mem_cons, not_or] at h
+    obtain ⟨hd, tl, e1, e2⟩ := splitOn_cons_ne sep c (x ++ sep :: r) (Ne.symm h.1)
+    rw [ih h.2] at e1
+    rw [List.cons_append, e2]; simp_all
+
+theorem joinWith_cons_cons (sep x y : Bytes) (rest : List Bytes) :
+    joinWith sep (x :: y :: rest) = x ++ sep ++ joinWith sep (y :: rest) := by
+  simp [joinWith]
+
+theorem splitOn_joinWith (sep : UInt8) (l : List Bytes) (hl : l ≠ []) (h : ∀ x ∈ l, sep ∉ x) :
+    splitOn sep (joinWith [sep] l) = l := by
+  induction l with
+  | nil => exact absurd rfl hl
+  | cons x l ih =>
+    cases l with
+    | nil => simpa [joinWith] using splitOn_no_sep sep x (h x List.mem_cons_self)
+    | cons y rest =>
+      rw [joinWith_cons_cons, List.append_assoc, List.singleton_append,
+        splitOn_append_sep _ _ _ (h x List.mem_cons_self),
+        ih (by simp) (fun z hz => h z (List.mem_cons_of_mem _ hz))]
+
+theorem dme_cons (x : Bytes) (l : List Bytes) :
+    dropMiddleEmpties (x :: l) =
+      if x = [] ∧ l ≠ [] then dropMiddleEmpties l else x :: dropMiddleEmpties l := by
+  cases l with
+  | nil => simp [dropMiddleEmpties]
+  | cons y rest => by_cases hx : x = [] <;> simp [dropMiddleEmpties, hx]
+
+theorem collapse_split (q : Bytes) :
+    splitOn 0x2F (collapseAux true q) = dropMiddleEmpties (splitOn 0x2F q) ∧
+    ∃ hd tl, splitOn 0x2F q = hd :: tl ∧
+      splitOn 0x2F (collapseAux false q) = hd :: dropMiddleEmpties tl := by
+  induction q with
+  | nil => exact ⟨by simp [collapseAux, splitOn_nil, dropMiddleEmpties], [], [], by
+      simp [collapseAux, splitOn_nil, dropMiddleEmpties]⟩
+  | cons c r ih =>
+    obtain ⟨ihA, hd, tl, e, ihB⟩ := ih
+    by_cases hc : c = 0x2F
+    · subst hc
+      rw [splitOn_cons_sep]
+      refine ⟨?_, [], splitOn 0x2F r, rfl, ?_⟩
+      · simp [collapseAux, ihA, dme_cons, splitOn_ne_nil]
+      · simp [collapseAux, splitOn_cons_sep, ihA]
+    · obtain ⟨hd', tl', e1, e2⟩ := splitOn_cons_ne 0x2F c r hc
+      obtain ⟨hd'', tl'', e1', e2'⟩ := splitOn_cons_ne 0x2F c (collapseAux false r) hc
+      have : hd' = hd ∧ tl' = tl := by rw [e] at e1; simpa using e1.symm
+      obtain ⟨rfl, rfl⟩ := this
+      have : hd'' = hd' ∧ tl'' = dropMiddleEmpties tl' := by rw [ihB] at e1'; simpa using e1'.symm
+      obtain ⟨rfl, rfl⟩ := this
+      refine ⟨?_, c :: hd'', tl', e2, ?_⟩
+      · simp [collapseAux, hc, e2, e2', dme_cons]
+      · simp [collapseAux, hc, e2']
+
+theorem collapseSlashes_split (q : Bytes) :
+    splitOn 0x2F (collapseSlashes (0x2F :: q)) = [] :: dropMiddleEmpties (splitOn 0x2F q) := by
+  simp [collapseSlashes, collapseAux, splitOn_cons_sep, (collapse_split q).1]
+
+
+/-! ### mapM, pathLoop, resolveDots and the path theorem -/
+
+theorem mapM_cons' {α β} (f : α → Option β) (x : α) (l : List α) :
+    (x :: l).mapM f = (f x).bind (fun y => (l.mapM f).map (y :: ·)) := by
+  rw [List.mapM_cons]
+  cases f x <;> simp
+  cases l.mapM f <;> simp
+
+theorem mapM_nil' {α β} (f : α → Option β) : ([] : List α).mapM f = some [] := rfl
+
+theorem mapM_length {α β} (f : α → Option β) (l : List α) (r : List β) (h : l.mapM f = some r) :
+    r.length = l.length := by
+  induction l generalizing r with
+  | nil => simp at h; simp [← h]
+  | cons x l ih =>
+    rw [mapM_cons'] at h
+    cases hx : f x with
+    | none => simp [hx] at h
+    | some y =>
+      cases hl : l.mapM f with
+      | none => simp [hx, hl] at h
+      | some r' => simp [hx, hl] at h; subst h; simp [ih r' hl]
+
+theorem pathLoop_nil (s3 : Bool) (done : List Bytes) : pathLoop s3 done [] = .ok done.reverse := by
+  simp [pathLoop]
+
+theorem pathLoop_cons (s3 : Bool) (done : List Bytes) (c : Bytes) (todo : List Bytes) :
+    pathLoop s3 done (c :: todo) =
+      match pctDecode true c with
+      | none => .err .InvalidURIPath
+      | some d =>
+        if d = DOT ∧ s3 = false then pathLoop s3 done todo
+        else if d = DOTDOT ∧ s3 = false then
+          match done with
+          | _ :: x :: done' => pathLoop s3 (x :: done') todo
+          | _ => .err .InvalidURIPath
+        else pathLoop s3 (pctEncodeAll d :: done) todo := by
+  have e1 : ∀ d, pctEncodeAll d = DOT ↔ d = DOT := fun d =>
+    ⟨fun h => pctEncodeAll_inj (d' := DOT) (by rw [h]; decide), fun h => by rw [h]; decide⟩
+  have e2 : ∀ d, pctEncodeAll d = DOTDOT ↔ d = DOTDOT := fun d =>
+    ⟨fun h => pctEncodeAll_inj (d' := DOTDOT) (by rw [h]; decide), fun h => by rw [h]; decide⟩
+  rw [pathLoop.eq_def]
+  simp only [normElem_eq_spec]
+  cases pctDecode true c with
+  | none => rfl
+  | some d =>
+    simp only [Option.map_some, optToOutcome_some, e1, e2]
+    rfl
+
+
+
+theorem pathLoop_s3 (done : List Bytes) (l : List Bytes) :
+    pathLoop true done l = optToOutcome .InvalidURIPath
+      ((l.mapM (pctDecode true)).map (fun segs => done.reverse ++ segs.map pctEncodeAll)) := by
+  induction l generalizing done with
+  | nil => simp [pathLoop_nil]
+  | cons c l ih =>
+    rw [pathLoop_cons, mapM_cons']
+    cases pctDecode true c with
+    | none => rfl
+    | some d =>
+      simp only [Bool.true_eq_false, and_false, if_false, ih, Option.bind_some, Option.map_map]
+      cases l.mapM (pctDecode true) <;> simp
+
+theorem resolveDots_nil (st : List Bytes) : resolveDots st [] = some st.reverse := by
+  simp [resolveDots]
+
+theorem resolveDots_cons (st : List Bytes) (seg : Bytes) (rest : List Bytes) :
+    resolveDots st (seg :: rest) =
+      if seg = DOT then resolveDots st rest
+      else if seg = DOTDOT then
+        match st with
+        | [] => none
+        | _ :: st' => resolveDots st' rest
+      else resolveDots (seg :: st) rest := by
+  rw [resolveDots.eq_def]; rfl
+
+theorem pathLoop_std (first : Bytes) (st : List Bytes) (l : List Bytes) :
+    pathLoop false (st.map pctEncodeAll ++ [first]) l = optToOutcome .InvalidURIPath
+      ((l.mapM (pctDecode true)).bind fun segs =>
+        (resolveDots st segs).map fun r => first :: r.map pctEncodeAll) := by
+  induction l generalizing st with
+  | nil => simp [pathLoop_nil, resolveDots_nil]
+  | cons c l ih =>
+    rw [pathLoop_cons, mapM_cons']
+    cases pctDecode true c with
+    | none => rfl
+    | some d =>
+      simp only [and_true, Option.bind_some]
+      by_cases h1 : d = DOT
+      · simp only [h1, if_true, ih]
+        cases l.mapM (pctDecode true) with
+        | none => rfl
+        | some segs => simp [resolveDots_cons]
+      · by_cases h2 : d = DOTDOT
+        · subst h2
+          have hne : DOTDOT ≠ DOT := by decide
+          simp only [hne, if_true, if_false]
+          cases st with
+          | nil =>
+            cases l.mapM (pctDecode true) with
+            | none => rfl
+            | some segs => simp [resolveDots_cons, hne]
+          | cons x st' =>
+            have := ih st'
+            cases st' with
+            | nil =>
+              simp only [List.map_nil, List.nil_append] at this
+              simp only [List.map_cons, List.map_nil, List.nil_append, List.cons_append, this]
+              cases l.mapM (pctDecode true) with
+              | none => rfl
+              | some segs => simp [resolveDots_cons, hne]
+            | cons y st'' =>
+              simp only [List.map_cons, List.cons_append] at this
+              simp only [List.map_cons, List.cons_append, this]
+              cases l.mapM (pctDecode true) with
+              | none => rfl
+              | some segs => simp [resolveDots_cons, hne]
+        · simp only [h1, h2, if_false]
+          have := ih (d :: st)
+          simp only [List.map_cons, List.cons_append] at this
+          rw [this]
+          cases l.mapM (pctDecode true) with
+          | none => rfl
+          | some segs => simp [resolveDots_cons, h1, h2]
+
+
+theorem pctDecode_ne_nil (p : Bool) (s d : Bytes) (hs : s ≠ []) (h : pctDecode p s = some d) :
+    d ≠ [] := by
+  rw [pctDecode.eq_def] at h
+  split at h
+  · exact absurd rfl hs
+  · split at h
+    · split at h
+      · split at h
+        · cases hr : pctDecode p ‹_› <;> simp_all <;> (rw [← h]; simp)
+        · simp at h
+      · simp at h
+    · split at h <;> (cases hr : pctDecode p ‹_› <;> simp_all) <;> (rw [← h]; simp)
+
+theorem mapM_ne_nil {α β} (f : α → Option β) (l : List α) (r : List β) (hl : l ≠ [])
+    (h : l.mapM f = some r) : r ≠ [] := by
+  have := mapM_length f l r h
+  intro hr; subst hr; cases l <;> simp_all
+
+theorem dme_mapM (p : Bool) (l : List Bytes) :
+    (dropMiddleEmpties l).mapM (pctDecode p) = (l.mapM (pctDecode p)).map dropMiddleEmpties := by
+  induction l with
+  | nil => simp [dropMiddleEmpties]
+  | cons x l ih =>
+    rw [dme_cons]
+    by_cases hx : x = [] ∧ l ≠ []
+    · obtain ⟨rfl, hl⟩ := hx
+      simp only [hl, ne_eq, not_false_eq_true, and_self, if_true, ih, mapM_cons', pctDecode_nil,
+        Option.bind_some, Option.map_map]
+      cases hm : l.mapM (pctDecode p) with
+      | none => rfl
+      | some r =>
+        have := mapM_ne_nil _ _ _ hl hm
+        simp [dme_cons, this]
+    · rw [if_neg hx, mapM_cons', mapM_cons', ih]
+      cases hd : pctDecode p x with
+      | none => rfl
+      | some d =>
+        simp only [Option.bind_some, Option.map_map]
+        cases hm : l.mapM (pctDecode p) with
+        | none => rfl
+        | some r =>
+          simp only [Option.map_some, Function.comp_apply, dme_cons]
+          by_cases hl : l = []
+          · subst hl; simp at hm; subst hm; simp
+          · have hx' : x ≠ [] := fun h => hx ⟨h, hl⟩
+            have := pctDecode_ne_nil p x d hx' hd
+            simp [this]
+
+theorem refPath_nil (plus s3 : Bool) : refPath plus s3 [] = some [0x2F] := rfl
+theorem refPath_cons (plus s3 : Bool) (c : UInt8) (q : Bytes) : refPath plus s3 (c :: q) =
+    if c ≠ 0x2F then none
+    else
+      match (splitOn 0x2F q).mapM (pctDecode plus) with
+      | none => none
+      | some segs =>
+        if s3 then some (0x2F :: joinWith [0x2F] (segs.map pctEncodeAll))
+        else
+          match resolveDots [] (dropMiddleEmpties segs) with
+          | none => none
+          | some st => some (0x2F :: joinWith [0x2F] (st.map pctEncodeAll)) := rfl
+
+theorem canonPath_eq_ref (s3 : Bool) (p : Bytes) :
+    canonPath s3 p = optToOutcome .InvalidURIPath (refPath true s3 p) := by
+  cases p with
+  | nil => rfl
+  | cons c q =>
+    by_cases hc : c = 0x2F
+    · subst hc
+      by_cases hq : q = []
+      · subst hq; cases s3 <;> decide
+      · rw [refPath_cons]
+        unfold canonPath
+        simp only [hq, List.cons.injEq, and_false, or_false, reduceCtorEq, if_false, ne_eq,
+          not_true_eq_false]
+        cases s3 with
+        | true =>
+          simp only [if_true, splitOn_cons_sep, pathLoop_s3]
+          cases hm : (splitOn 0x2F q).mapM (pctDecode true) with
+          | none => rfl
+          | some segs =>
+            have := mapM_ne_nil _ _ _ (splitOn_ne_nil _ _) hm
+            cases segs with
+            | nil => exact absurd rfl this
+            | cons y rest => simp [joinWith_cons_cons]
+        | false =>
+          simp only [Bool.false_eq_true, if_false, collapseSlashes_split]
+          have := pathLoop_std [] [] (dropMiddleEmpties (splitOn 0x2F q))
+          simp only [List.map_nil, List.nil_append] at this
+          rw [this, dme_mapM]
+          cases hm : (splitOn 0x2F q).mapM (pctDecode true) with
+          | none => rfl
+          | some segs =>
+            simp only [Option.map_some, Option.bind_some]
+            cases resolveDots [] (dropMiddleEmpties segs) with
+            | none => rfl
+            | some st =>
+              cases st with
+              | nil => rfl
+              | cons y rest => simp [joinWith_cons_cons]
+    · rw [refPath_cons]
+      unfold canonPath
+      simp [hc]
+
+theorem pctEncodeAll_eq_DOT (d : Bytes) : pctEncodeAll d = DOT ↔ d = DOT :=
+  ⟨fun h => pctEncodeAll_inj (d' := DOT) (by rw [h]; decide), fun h => by rw [h]; decide⟩
+theorem pctEncodeAll_eq_DOTDOT (d : Bytes) : pctEncodeAll d = DOTDOT ↔ d = DOTDOT :=
+  ⟨fun h => pctEncodeAll_inj (d' := DOTDOT) (by rw [h]; decide), fun h => by rw [h]; decide⟩
+
+theorem mapM_congr {α β} (f g : α → Option β) (l : List α) (h : ∀ x ∈ l, f x = g x) :
+    l.mapM f = l.mapM g := by
+  induction l with
+  | nil => rfl
+  | cons x l ih =>
+    rw [mapM_cons', mapM_cons', h x List.mem_cons_self, ih (fun y hy => h y (List.mem_cons_of_mem _ hy))]
+
+theorem mapM_dec_enc (plus : Bool) (l : List Bytes) :
+    (l.map pctEncodeAll).mapM (pctDecode plus) = some l := by
+  induction l with
+  | nil => rfl
+  | cons x l ih => rw [List.map_cons, mapM_cons', pctDecode_pctEncodeAll, ih]; rfl
+
+theorem refPath_no_plus (s3 : Bool) (p : Bytes) (h : (0x2B : UInt8) ∉ p) :
+    refPath false s3 p = refPath true s3 p := by
+  cases p with
+  | nil => rfl
+  | cons c q =>
+    rw [refPath_cons, refPath_cons]
+    have : (splitOn 0x2F q).mapM (pctDecode false) = (splitOn 0x2F q).mapM (pctDecode true) := by
+      apply mapM_congr
+      intro seg hseg
+      apply pctDecode_eq_of_no_plus
+      intro hc
+      exact h (List.mem_cons_of_mem _ (splitOn_mem _ _ seg hseg _ hc))
+    rw [this]
+
+/-! ### shape of the reference output -/
+
+def midOK (l : List Bytes) : Prop := ∀ x ∈ l.dropLast, x ≠ []
+
+theorem midOK_cons (x : Bytes) (l : List Bytes) :
+    midOK (x :: l) ↔ (l ≠ [] → x ≠ []) ∧ midOK l := by
+  cases l with
+  | nil => simp [midOK]
+  | cons y l => simp [midOK, List.dropLast]
+
+theorem midOK_of_all (l : List Bytes) (h : ∀ x ∈ l, x ≠ []) : midOK l :=
+  fun x hx => h x (List.dropLast_subset l hx)
+
+theorem midOK_concat (l : List Bytes) (s : Bytes) (h : ∀ x ∈ l, x ≠ []) : midOK (l ++ [s]) := by
+  intro x hx; simp at hx; exact h x hx
+
+theorem dme_ne_nil (l : List Bytes) (h : l ≠ []) : dropMiddleEmpties l ≠ [] := by
+  induction l with
+  | nil => exact absurd rfl h
+  | cons x l ih =>
+    rw [dme_cons]
+    by_cases hx : x = [] ∧ l ≠ []
+    · rw [if_pos hx]; exact ih hx.2
+    · rw [if_neg hx]; simp
+
+theorem dme_midOK (l : List Bytes) : midOK (dropMiddleEmpties l) := by
+  induction l with
+  | nil => simp [dropMiddleEmpties, midOK]
+  | cons x l ih =>
+    rw [dme_cons]
+    by_cases hx : x = [] ∧ l ≠ []
+    · rw [if_pos hx]; exact ih
+    · rw [if_neg hx, midOK_cons]
+      refine ⟨fun hne hx' => hx ⟨hx', fun hl => hne (by rw [hl]; rfl)⟩, ih⟩
+
+theorem dme_id (l : List Bytes) (h : midOK l) : dropMiddleEmpties l = l := by
+  induction l with
+  | nil => rfl
+  | cons x l ih =>
+    rw [midOK_cons] at h
+    rw [dme_cons, ih h.2]
+    by_cases hx : x = [] ∧ l ≠ []
+    · exact absurd hx.1 (h.1 hx.2)
+    · rw [if_neg hx]
+
+theorem resolveDots_midOK (st l r : List Bytes) (h : resolveDots st l = some r)
+    (hst : ∀ x ∈ st, x ≠ []) (hl : midOK l) : midOK r := by
+  induction l generalizing st with
+  | nil =>
+    rw [resolveDots_nil] at h; cases h
+    exact midOK_of_all _ (fun x hx => hst x (List.mem_reverse.1 hx))
+  | cons seg rest ih =>
+    rw [midOK_cons] at hl
+    rw [resolveDots_cons] at h
+    split at h
+    · exact ih st h hst hl.2
+    · split at h
+      · cases st with
+        | nil => simp at h
+        | cons y st' => exact ih st' h (fun x hx => hst x (List.mem_cons_of_mem _ hx)) hl.2
+      · by_cases hr : rest = []
+        · subst hr
+          rw [resolveDots_nil] at h; cases h
+          rw [List.reverse_cons]
+          exact midOK_concat _ _ (fun x hx => hst x (List.mem_reverse.1 hx))
+        · refine ih (seg :: st) h ?_ hl.2
+          intro x hx
+          rcases List.mem_cons.1 hx with rfl | hx
+          · exact hl.1 hr
+          · exact hst x hx
+
+theorem resolveDots_no_dots (st l r : List Bytes) (h : resolveDots st l = some r)
+    (hst : ∀ x ∈ st, x ≠ DOT ∧ x ≠ DOTDOT) : ∀ x ∈ r, x ≠ DOT ∧ x ≠ DOTDOT := by
+  induction l generalizing st with
+  | nil =>
+    rw [resolveDots_nil] at h; cases h
+    exact fun x hx => hst x (List.mem_reverse.1 hx)
+  | cons seg rest ih =>
+    rw [resolveDots_cons] at h
+    split at h
+    · exact ih st h hst
+    · split at h
+      · cases st with
+        | nil => simp at h
+        | cons y st' => exact ih st' h (fun x hx => hst x (List.mem_cons_of_mem _ hx))
+      · refine ih (seg :: st) h ?_
+        intro x hx
+        rcases List.mem_cons.1 hx with rfl | hx
+        · exact ⟨‹_›, ‹_›⟩
+        · exact hst x hx
+
+theorem resolveDots_id (st l : List Bytes) (h : ∀ x ∈ l, x ≠ DOT ∧ x ≠ DOTDOT) :
+    resolveDots st l = some (st.reverse ++ l) := by
+  induction l generalizing st with
+  | nil => simp [resolveDots_nil]
+  | cons seg rest ih =>
+    have := h seg List.mem_cons_self
+    rw [resolveDots_cons, if_neg this.1, if_neg this.2,
+      ih _ (fun x hx => h x (List.mem_cons_of_mem _ hx))]
+    simp
+
+/-- The reference applied to an already-canonical rendering of decoded segments. -/
+theorem refPath_of_rendered (plus s3 : Bool) (l : List Bytes) (hl : l ≠ []) :
+    refPath plus s3 (0x2F :: joinWith [0x2F] (l.map pctEncodeAll)) =
+      if s3 then some (0x2F :: joinWith [0x2F] (l.map pctEncodeAll))
+      else (resolveDots [] (dropMiddleEmpties l)).map
+        fun st => 0x2F :: joinWith [0x2F] (st.map pctEncodeAll) := by
+  rw [refPath_cons, splitOn_joinWith _ _ (by simpa using hl), mapM_dec_enc]
+  · simp only [ne_eq, not_true_eq_false, if_false]
+    cases s3 with
+    | true => rfl
+    | false => cases resolveDots [] (dropMiddleEmpties l) <;> rfl
+  · intro x hx
+    obtain ⟨d, -, rfl⟩ := List.mem_map.1 hx
+    exact pctEncodeAll_no_slash d
+
+theorem splitOn_rendered (l : List Bytes) (hl : l ≠ []) :
+    splitOn 0x2F (0x2F :: joinWith [0x2F] (l.map pctEncodeAll)) = [] :: l.map pctEncodeAll := by
+  rw [splitOn_cons_sep, splitOn_joinWith _ _ (by simpa using hl)]
+  intro x hx
+  obtain ⟨d, -, rfl⟩ := List.mem_map.1 hx
+  exact pctEncodeAll_no_slash d
+
+/-- What a successful reference result looks like. -/
+theorem refPath_some (plus s3 : Bool) (p r : Bytes) (h : refPath plus s3 p = some r) :
+    r = [0x2F] ∨ ∃ q segs st, p = 0x2F :: q ∧ (splitOn 0x2F q).mapM (pctDecode plus) = some segs ∧
+      st ≠ [] ∧ r = 0x2F :: joinWith [0x2F] (st.map pctEncodeAll) ∧
+      (s3 = true → st = segs) ∧
+      (s3 = false → midOK st ∧ ∀ x ∈ st, x ≠ DOT ∧ x ≠ DOTDOT) := by
+  cases p with
+  | nil => left; cases h; rfl
+  | cons c q =>
+    rw [refPath_cons] at h
+    by_cases hc : c = 0x2F
+    · subst hc
+      simp only [ne_eq, not_true_eq_false, if_false] at h
+      cases hm : (splitOn 0x2F q).mapM (pctDecode plus) with
+      | none => simp [hm] at h
+      | some segs =>
+        simp only [hm] at h
+        cases s3 with
+        | true =>
+          simp only [if_true, Option.some.injEq] at h
+          right
+          exact ⟨q, segs, segs, rfl, hm, mapM_ne_nil _ _ _ (splitOn_ne_nil _ _) hm, h.symm,
+            fun _ => rfl, fun h => by simp at h⟩
+        | false =>
+          simp only [Bool.false_eq_true, if_false] at h
+          cases hr : resolveDots [] (dropMiddleEmpties segs) with
+          | none => simp [hr] at h
+          | some st =>
+            simp only [hr, Option.some.injEq] at h
+            by_cases hst : st = []
+            · left; subst hst; exact h.symm
+            · right
+              exact ⟨q, segs, st, rfl, hm, hst, h.symm, fun h => by simp at h, fun _ =>
+                ⟨resolveDots_midOK _ _ _ hr (by simp) (dme_midOK _),
+                 resolveDots_no_dots _ _ _ hr (by simp)⟩⟩
+    · simp [hc] at h
+
+theorem refPath_idempotent (s3 : Bool) (p r : Bytes) (h : refPath true s3 p = some r) :
+    refPath true s3 r = some r := by
+  rcases refPath_some _ _ _ _ h with rfl | ⟨q, segs, st, -, -, hst, rfl, h3, hstd⟩
+  · cases s3 <;> decide
+  · rw [refPath_of_rendered _ _ _ hst]
+    cases s3 with
+    | true => rfl
+    | false =>
+      obtain ⟨h1, h2⟩ := hstd rfl
+      simp [dme_id _ h1, resolveDots_id _ _ h2]
+
+
+
+/-! ### the reference as a function of the decoded raw segments -/
+
+theorem mapM_id_map {α β} (f : α → Option β) (l : List α) : (l.map f).mapM id = l.mapM f := by
+  induction l with
+  | nil => rfl
+  | cons x l ih => rw [List.map_cons, mapM_cons', mapM_cons', ih]; rfl
+
+/-- `refPath true` reads the path only through the decoded raw segments. -/
+def refOfDecoded (s3 : Bool) : List (Option Bytes) → Option Bytes
+  | [some []] => some [0x2F]
+  | some [] :: rest =>
+    match rest.mapM id with
+    | none => none
+    | some segs =>
+      if s3 then some (0x2F :: joinWith [0x2F] (segs.map pctEncodeAll))
+      else
+        match resolveDots [] (dropMiddleEmpties segs) with
+        | none => none
+        | some st => some (0x2F :: joinWith [0x2F] (st.map pctEncodeAll))
+  | _ => none
+
+theorem refPath_eq_refOfDecoded (s3 : Bool) (p : Bytes) :
+    refPath true s3 p = refOfDecoded s3 ((splitOn 0x2F p).map (pctDecode true)) := by
+  cases p with
+  | nil => rfl
+  | cons c q =>
+    rw [refPath_cons]
+    by_cases hc : c = 0x2F
+    · subst hc
+      rw [splitOn_cons_sep, List.map_cons, pctDecode_nil]
+      cases hs : splitOn 0x2F q with
+      | nil => exact absurd hs (splitOn_ne_nil _ _)
+      | cons y ys =>
+        rw [List.map_cons, refOfDecoded, ← List.map_cons, mapM_id_map]
+        · simp only [ne_eq, not_true_eq_false, if_false]
+        · simp
+    · obtain ⟨hd, tl, -, e⟩ := splitOn_cons_ne 0x2F c q hc
+      rw [e, List.map_cons, if_pos hc]
+      cases hd' : pctDecode true (c :: hd) with
+      | none => simp [refOfDecoded]
+      | some d =>
+        have := pctDecode_ne_nil _ _ _ (by simp) hd'
+        cases d with
+        | nil => exact absurd rfl this
+        | cons a d => simp [refOfDecoded]
+
+theorem canonPath_s3_segments (p r : Bytes) (hp : p ≠ []) (h : refPath true true p = some r) :
+    (splitOn 0x2F r).length = (splitOn 0x2F p).length := by
+  rcases refPath_some _ _ _ _ h with rfl | ⟨q, segs, st, rfl, hm, hst, rfl, h3, -⟩
+  · cases p with
+    | nil => exact absurd rfl hp
+    | cons c q =>
+      rw [refPath_cons] at h
+      by_cases hc : c = 0x2F
+      · subst hc
+        simp only [ne_eq, not_true_eq_false, if_false, if_true] at h
+        cases hm : (splitOn 0x2F q).mapM (pctDecode true) with
+        | none => simp [hm] at h
+        | some segs =>
+          have hne := mapM_ne_nil _ _ _ (splitOn_ne_nil _ _) hm
+          have hlen := mapM_length _ _ _ hm
+          simp only [hm, Option.some.injEq, List.cons.injEq, true_and] at h
+          cases segs with
+          | nil => exact absurd rfl hne
+          | cons y ys =>
+            cases ys with
+            | nil =>
+              simp [splitOn_cons_sep, splitOn_nil, ← hlen]
+            | cons z zs => simp [joinWith_cons_cons] at h
+      · simp [hc] at h
+  · rw [splitOn_rendered _ hst, splitOn_cons_sep, h3 rfl]
+    simp [mapM_length _ _ _ hm]
+
+theorem canonPath_std_no_dots (p r : Bytes) (h : refPath true false p = some r) :
+    ∀ seg ∈ (splitOn 0x2F r).drop 1, seg ≠ DOT ∧ seg ≠ DOTDOT := by
+  rcases refPath_some _ _ _ _ h with rfl | ⟨q, segs, st, rfl, hm, hst, rfl, -, hstd⟩
+  · decide
+  · rw [splitOn_rendered _ hst]
+    intro seg hseg
+    simp only [List.drop_succ_cons, List.drop_zero] at hseg
+    obtain ⟨d, hd, rfl⟩ := List.mem_map.1 hseg
+    have := (hstd rfl).2 d hd
+    rw [Ne, Ne, pctEncodeAll_eq_DOT, pctEncodeAll_eq_DOTDOT]
+    exact this
 
 end SigV4
